@@ -16,8 +16,8 @@ const prop = "C11"
 // skipKnown: leave the two known-finding classes of pruning (A, B; see campaign.py) out of the higher rungs.
 // C11_CHECK_KNOWN=A, =B or =AB checks the named classes too (used to re-derive the findings).
 var (
-	skipA = !strings.Contains(os.Getenv("C11_CHECK_KNOWN"), "A")
-	skipB = !strings.Contains(os.Getenv("C11_CHECK_KNOWN"), "B")
+	skipA = false // class A fixed in /repo (af03cae): always checked
+	skipB = false // class B fixed in /repo (9794895): always checked
 	skipC = !strings.Contains(os.Getenv("C11_CHECK_KNOWN"), "C")
 	skipD = !strings.Contains(os.Getenv("C11_CHECK_KNOWN"), "D")
 	skipR = !strings.Contains(os.Getenv("C11_CHECK_KNOWN"), "R")
